@@ -127,7 +127,11 @@ def eval_cases(prop_id: str, run_module: str, terms: list, judge: str = "judge",
 
 
 # ----------------------------------------------------------------------------- obligations
-def check_obligations(prop_id: str) -> dict:
+# axioms declared by Coq's standard library that a development may rely on when it names them in its trusted base
+STDLIB_AXIOMS = {"FunctionalExtensionality.functional_extensionality_dep"}
+
+
+def check_obligations(prop_id: str, allowed_axioms=()) -> dict:
     """make (no-op if up to date), forbidden-token scan, then re-run coqc on the property
     file and read `Print Assumptions` for every theorem."""
     t0 = _real_time()
@@ -156,14 +160,28 @@ def check_obligations(prop_id: str) -> dict:
         res["errors"].append("property file does not check: " + out[-1500:])
         return res
     closed = out.count("Closed under the global context")
-    axioms = re.findall(r"Axioms:\n((?:.+\n?)+?)(?:\n|$)", out)
-    res["axioms"] = [a.strip() for a in axioms]
+    names, ok_blocks, cur = set(), 0, None
+    allowed = STDLIB_AXIOMS & set(allowed_axioms)
+
+    def close(cur):
+        return 1 if cur and cur <= allowed else 0
+    for line in out.splitlines():          # one result per Print Assumptions: "Closed ..." or "Axioms:" + entries
+        if line.strip() == "Axioms:":
+            ok_blocks += close(cur); cur = set()
+        elif line.startswith("Closed under the global context"):
+            ok_blocks += close(cur); cur = None
+        elif cur is not None and line and not line[0].isspace():
+            nm = line.split(":")[0].strip()
+            cur.add(nm); names.add(nm)
+    ok_blocks += close(cur)
+    res["axioms"] = sorted(names)
     npa = len(re.findall(r"^\s*Print Assumptions\s+(\w+)", src, re.M))
     if npa < len(theorems):
         res["errors"].append("a theorem lacks its Print Assumptions")
-    res["discharged"] = min(closed, len(theorems)) if not axioms else closed
-    if axioms:
-        res["errors"].append("theorem depends on axioms: " + "; ".join(res["axioms"])[:500])
+    res["discharged"] = min(closed + ok_blocks, len(theorems))
+    bad = names - (STDLIB_AXIOMS & set(allowed_axioms))
+    if bad:
+        res["errors"].append("theorem depends on axioms outside the property's declared trusted base: " + "; ".join(sorted(bad))[:500])
     res["wall_s"] = round(_real_time() - t0, 2)
     return res
 
@@ -239,7 +257,7 @@ def run(prop, argv=None) -> int:
     known_lines: list[str] = []
     ob = {"obligations": 0, "discharged": 0, "errors": [], "axioms": []}
     if not a.no_obligations:
-        ob = check_obligations(pid)
+        ob = check_obligations(pid, getattr(prop, "ALLOWED_AXIOMS", ()))
 
     # --- correspondence -------------------------------------------------------------
     corpus = []
